@@ -230,3 +230,57 @@ func VerifC05_FibHistory() {
 		}
 	}
 }
+
+
+// Longer histories as fixed shapes of operation kinds (I insert/update, R remove, C clear, S set strategy,
+// U unset strategy): every prefix, face, cost and the final lookup name stay symbolic; lookups and listings are
+// checked once, after the last operation.
+var verifC05Shapes = []string{"IIR", "IIC", "IRI", "IIS", "ISU", "SIU", "IIRI", "IIRR", "SSU"}
+
+func VerifC05_Scripted() {
+	depth := verifParam("sdepth", 3)
+	shape := verifC05Shapes[verifChoice("shape", len(verifC05Shapes))]
+	s0, _ := enc.NameFromStr("/localhost/nfd/strategy/best-route/v=1")
+	s1, _ := enc.NameFromStr("/localhost/nfd/strategy/multicast/v=1")
+	var t FibStrategy
+	label := "C05/tree"
+	if verifChoice("impl", 2) == 1 {
+		newFibStrategyTableHashTable(uint16(1 + verifChoice("m", verifParam("maxm", 2))))
+		label = "C05/hashtable"
+	} else {
+		newFibStrategyTableTree()
+	}
+	t = FibStrategyTable
+	model := &verifFibModel{}
+	model.setStrategy(enc.Name{}, s0)
+	for _, op := range shape {
+		n := verifC05Name("p", depth)
+		switch op {
+		case 'I':
+			face, cost := verifRange("face", 1, 3), verifU64("cost")
+			t.InsertNextHopEnc(n, face, cost)
+			model.insert(n, face, cost)
+		case 'R':
+			face := verifRange("face", 1, 3)
+			t.RemoveNextHopEnc(n, face)
+			model.remove(n, face)
+		case 'C':
+			t.ClearNextHopsEnc(n)
+			model.clear(n)
+		case 'S':
+			t.SetStrategyEnc(n, s1)
+			model.setStrategy(n, s1)
+		case 'U':
+			verifAssume(len(n) > 0)
+			t.UnSetStrategyEnc(n)
+			model.unsetStrategy(n)
+		}
+	}
+	q := verifC05Name("q", depth+1)
+	var hops []*FibNextHopEntry
+	var strat enc.Name
+	verifNoPanic(label+"/no-panic", func() { hops = t.FindNextHopsEnc(q); strat = t.FindStrategyEnc(q) })
+	verifAssert(verifSameHops(hops, model.lookupHops(q)), label+"/lookup-is-longest-prefix-match")
+	verifAssert(strat != nil && strat.Equal(model.lookupStrategy(q)), label+"/strategy-is-longest-prefix-match")
+	verifC05Listing(t, model, label)
+}
